@@ -128,6 +128,18 @@ pub fn run_history(kind: BKind, h: &[Kv]) -> Result<(), String> {
         if f.len() != m.content.len() {
             return Err(format!("len() = {} but {} keys were accepted", f.len(), m.content.len()));
         }
+        // "as if the call never happened": the bytes are those of a builder of
+        // the same kind that only ever saw the accepted calls
+        if h.len() != m.content.len() {
+            let mut c = new_builder(kind);
+            for (k, v) in &m.content {
+                call(&mut c, kind, k, *v).map_err(|e| format!("clean build failed: {:?}", e))?;
+            }
+            let clean = finish(c).map_err(|e| format!("clean finish failed: {:?}", e))?;
+            if clean != bytes {
+                return Err(format!("the finished bytes differ from those of a builder that only saw the accepted calls {} (rejected calls left a trace: e.g. get_key / the file layout differ)", kvs_str(&m.content)));
+            }
+        }
         Ok(())
     })
     .and_then(|x| x)
@@ -282,6 +294,62 @@ pub fn run_bulk_then(bulk: Bulk, h: &[Kv], next: Option<&Kv>) -> Result<(), Stri
     .and_then(|x| x)
 }
 
+/// The first `split` calls of the history as single inserts (each judged by
+/// the reference builder), the rest as ONE bulk call on the same, already
+/// populated builder - twice in a row for the empty remainder -, then a valid
+/// insert and finish.
+pub fn run_inserts_then_bulk(bulk: Bulk, h: &[Kv], split: usize) -> Result<(), String> {
+    guard(|| {
+        let is_map = bulk.is_map();
+        let mut m = RefBuilder::default();
+        let kind = match bulk {
+            Bulk::MapExtendIter | Bulk::MapExtendStream => BKind::Map,
+            Bulk::SetExtendIter | Bulk::SetExtendStream => BKind::Set,
+            _ => BKind::RawInsert,
+        };
+        let mut b = new_builder(kind);
+        for (i, (k, v)) in h[..split].iter().enumerate() {
+            let want = m.call(is_map, k, *v);
+            let got = classify(&call(&mut b, kind, k, *v))?;
+            if got != want {
+                return Err(format!("call {} ({}:{}) returned {:?}, model says {:?}", i, key_str(k), v, got, want));
+            }
+        }
+        let rest = &h[split..];
+        let mut want = Verdict::Ok;
+        for (k, v) in rest {
+            let r = m.call(is_map, k, *v);
+            if r != Verdict::Ok {
+                want = r;
+                break;
+            }
+        }
+        let r = match (&mut b, bulk) {
+            (AnyB::Map(b), Bulk::MapExtendIter) => b.extend_iter(rest.iter().map(|(k, v)| (k, *v))),
+            (AnyB::Map(b), _) => b.extend_stream(VecStreamU64::new(rest)),
+            (AnyB::Set(b), Bulk::SetExtendIter) => b.extend_iter(rest.iter().map(|(k, _)| k)),
+            (AnyB::Set(b), _) => b.extend_stream(VecStreamKeys::new(rest)),
+            (AnyB::Raw(b), Bulk::RawExtendIter) => b.extend_iter(rest.iter().map(|(k, v)| (k, Output::new(*v)))),
+            (AnyB::Raw(b), _) => b.extend_stream(VecStream::new(rest)),
+        };
+        let got = classify(&r)?;
+        if got != want {
+            return Err(format!("{} single inserts, then {:?} of the remaining {} items returned {:?}, the reference builder says {:?}", split, bulk, rest.len(), got, want));
+        }
+        let tail: Kv = (vec![0xff, 0xff, 0xff], if is_map { 9 } else { 0 });
+        call(&mut b, kind, &tail.0, tail.1).map_err(|e| format!("insert after the bulk call failed: {:?}", e))?;
+        let bytes = finish(b).map_err(|e| format!("finish failed: {:?}", e))?;
+        let mut wc = m.content.clone();
+        wc.push(tail);
+        let c = front::read_raw(&bytes)?;
+        if c != wc {
+            return Err(format!("{} single inserts then {:?}: content {} expected {}", split, bulk, kvs_str(&c), kvs_str(&wc)));
+        }
+        Ok(())
+    })
+    .and_then(|x| x)
+}
+
 fn hist_json(h: &[Kv]) -> Value {
     Value::Array(h.iter().map(|(k, v)| json!([hex(k), v])).collect())
 }
@@ -293,6 +361,9 @@ pub fn replay(case: &Value) -> Result<String, String> {
         run_history(*k, &h).map(|_| "history agrees with the model".into())
     } else {
         let b = BULKS.iter().find(|k| format!("{:?}", k) == name).unwrap();
+        if let Some(sp) = case.get("split").and_then(|x| x.as_u64()) {
+            return run_inserts_then_bulk(*b, &h, sp as usize).map(|_| "inserts then bulk call agree with the model".into());
+        }
         let next: Option<Kv> = case.get("next").filter(|n| !n.is_null()).map(|n| (unhex(n[0].as_str().unwrap()), n[1].as_u64().unwrap()));
         run_bulk_then(*b, &h, next.as_ref()).map(|_| "bulk call agrees with the model".into())
     }
@@ -306,7 +377,7 @@ pub fn plan(tier: Tier) -> Plan {
     } else {
         vec![b"".to_vec(), b"a".to_vec(), b"a\0".to_vec(), b"ab".to_vec(), b"b".to_vec()]
     };
-    p.rule = format!("every call history (valid, duplicate, smaller and empty keys at every position) of length <= depth over insert(k[,v]), k in {} keys, v in {{0,5}} for maps, on MapBuilder, SetBuilder, raw::Builder(insert only / add only); after EVERY prefix the builder is finished on a replayed copy and read back; each call result (variant and payload) and the content are compared with a reference builder; the same histories go through from_iter / extend_iter / extend_stream (followed, for histories of length 2..4, by one further insert of every key of the alphabet, judged by the reference builder, and a final valid insert). non-trivial = histories containing at least one rejected call", keys.len());
+    p.rule = format!("every call history (valid, duplicate, smaller and empty keys at every position) of length <= depth over insert(k[,v]), k in {} keys, v in {{0,5}} for maps, on MapBuilder, SetBuilder, raw::Builder(insert only / add only); after EVERY prefix the builder is finished on a replayed copy and read back; each call result (variant and payload) and the content are compared with a reference builder, and the finished bytes with those of a builder of the same kind that only saw the accepted calls; the same histories go through from_iter / extend_iter / extend_stream (followed, for histories of length 2..4, by one further insert of every key of the alphabet, judged by the reference builder, and a final valid insert; and, for histories of length <= 4, split at every point into single inserts followed by one bulk call on the populated builder). non-trivial = histories containing at least one rejected call", keys.len());
     p.assumptions = vec!["mixing add and insert on one raw builder is outside the property".into()];
     let alphabet_map: Vec<Kv> = keys.iter().flat_map(|k| [(k.clone(), 0u64), (k.clone(), 5u64)]).collect();
     let alphabet_set: Vec<Kv> = keys.iter().map(|k| (k.clone(), 0u64)).collect();
@@ -365,6 +436,17 @@ pub fn plan(tier: Tier) -> Plan {
                             st.count("bulk_calls", 1);
                             if let Err(msg) = run_bulk(bulk, &h) {
                                 rep.violation(format!("{:?} [{}]", bulk, hist_str(&h)), msg, json!({"target": format!("{:?}", bulk), "history": hist_json(&h)}));
+                            }
+                            // the history split at every point: single inserts, then one bulk call on the populated builder
+                            if matches!(bulk, Bulk::MapExtendIter | Bulk::MapExtendStream | Bulk::SetExtendIter | Bulk::SetExtendStream | Bulk::RawExtendIter | Bulk::RawExtendStream) && h.len() <= 4 {
+                                for split in 1..=h.len() {
+                                    st.states += 1;
+                                    st.evals += 1;
+                                    st.count("inserts_then_bulk_calls", 1);
+                                    if let Err(msg) = run_inserts_then_bulk(bulk, &h, split) {
+                                        rep.violation(format!("{:?} [{}] split {}", bulk, hist_str(&h), split), msg, json!({"target": format!("{:?}", bulk), "history": hist_json(&h), "split": split}));
+                                    }
+                                }
                             }
                             // one further insert after the bulk call, for every key of the alphabet
                             if matches!(bulk, Bulk::MapExtendIter | Bulk::MapExtendStream | Bulk::SetExtendIter | Bulk::SetExtendStream | Bulk::RawExtendIter | Bulk::RawExtendStream) && h.len() >= 2 && h.len() <= 4 {
@@ -432,6 +514,6 @@ pub fn plan(tier: Tier) -> Plan {
             }
         }
     }
-    p.must_be_nonzero = vec!["bulk_calls".into(), "long_key_histories".into()];
+    p.must_be_nonzero = vec!["bulk_calls".into(), "long_key_histories".into(), "inserts_then_bulk_calls".into()];
     p
 }
